@@ -28,6 +28,8 @@ ASSUMPTIONS = [
     "a crash is process death at a call-level point: completed system calls persist (no power-loss / fsync model) and "
     "pre-emption only happens at the listed yield points",
     "the pickle interface is not covered",
+    "reboot: setting a variable to a value that is equal to its current one but of another type (0 -> False, 1 -> 1.0) is "
+    "no change for MPF (nothing is written); such re-sets are skipped and counted",
     "after the generated history the writer is given 400 further steps; a save still not on disk then counts as lost",
     "reboot: the data written by the first machine is passed through FileManager.save/load on a real file and handed to "
     "the second machine as its machine_vars data (the test machines use an in-memory data manager)",
@@ -449,6 +451,16 @@ def check_reboot(case):
             v_ = case["vars"][idx % len(case["vars"])]
             rig.advance(after)
             t += after
+            cur = model[v_["name"]]["value"]
+            try:
+                equal_other_type = cur == val and not same(cur, val)
+            except Exception:   # pylint: disable=broad-except
+                equal_other_type = False
+            if equal_other_type:
+                # 0 -> False, 1 -> 1.0, [0, False] -> [0, 0]: equal values, so no change and nothing to write - which of
+                # the two equal values is on disk afterwards is not something the statement fixes (excluded, counted)
+                classes.add("re-set with an equal value of another type (skipped)")
+                continue
             mv.set_machine_var(v_["name"], copy.deepcopy(val))
             classes.add("variable set again" + (" after its previous expiry" if v_["expire_secs"] and
                                                  model[v_["name"]]["expires"] is not None and
